@@ -37,6 +37,33 @@ pub fn run(args: &Args) -> i32 {
             ],
             strategy: StratSpec::ActorOrder(vec![1, 2]),
         },
+        // sequential: index, update (rows move, row ids kept), optimize_indices
+        "update_optimize" => HistorySpec {
+            name: "probe-update-optimize".into(), stable_row_ids: stable, v2_manifest_paths: false, frags: 2, rows_per_frag: 6,
+            pre_ops: vec![
+                Op::CreateIndex { col: "v", name: "idx".into() },
+                Op::Update { pred: IdPred::In(vec![4, 5, 10]), add: 6, set_w: None, retries: None },
+            ],
+            actors: vec![(3, Op::OptimizeIndices)],
+            strategy: StratSpec::ActorOrder(vec![1]),
+        },
+        // sequential: index, in-place column rewrite (bitmap pruned), optimize_indices
+        "mergecol_optimize" => HistorySpec {
+            name: "probe-mergecol-optimize".into(), stable_row_ids: stable, v2_manifest_paths: false, frags: 2, rows_per_frag: 6,
+            pre_ops: vec![
+                Op::CreateIndex { col: "v", name: "idx".into() },
+                Op::MergeCol { ids: vec![1, 2, 4], col: "v", salt: 99, retries: None },
+            ],
+            actors: vec![(3, Op::OptimizeIndices)],
+            strategy: StratSpec::ActorOrder(vec![1]),
+        },
+        // sequential: index, then data replacement of the file holding the indexed column
+        "datarepl_index" => HistorySpec {
+            name: "probe-datarepl-index".into(), stable_row_ids: stable, v2_manifest_paths: false, frags: 2, rows_per_frag: 6,
+            pre_ops: vec![Op::CreateIndex { col: "v", name: "idx".into() }],
+            actors: vec![(2, Op::ReplaceV { frag: 1, ids: (6..12).collect(), salt: 99 })],
+            strategy: StratSpec::ActorOrder(vec![1]),
+        },
         _ => {
             eprintln!("unknown probe");
             return 2;
@@ -55,7 +82,7 @@ pub fn run(args: &Args) -> i32 {
         let reader = Actor::new(out.world.new_actor(0));
         if sc.findings.is_empty() {
             let ds = reader.open(&out.uri).await.unwrap();
-            let (f, st) = check_index_coverage(&ds, "probe", false).await.unwrap();
+            let (f, st) = check_index_coverage(&ds, &history_cause(&out), false).await.unwrap();
             println!("index check: {st:?}");
             for f in f {
                 println!("FINDING {} :: {}", f.signature, f.what);
